@@ -27,6 +27,9 @@ pub struct FrameBatch {
 }
 
 impl FrameBatch {
+  /// The most frames one batch (one multipart message) can hold; pushing beyond it panics.
+  pub const MAX_FRAMES: usize = 255;
+
   pub fn new() -> Self {
     Self { inner: FrameBatchInner::Empty }
   }
